@@ -26,6 +26,11 @@ def make_plan(tape, prop):
     for f in ("consts", "enums", "typedefs", "unions", "nested"):
         feats[f] = True if tape.chance(2, 3) else feats[f]
     feats["shared_sizer"] = False
+    variant = tape.draw(5)
+    if variant == 4:        # isar inputs: only what isar XML can say
+        for f in ("arr_dynamic", "arr_greedy", "bytes"):
+            feats[f] = False
+        feats["_forbid"] = ("arr_dynamic", "arr_greedy", "bytes")
     schema = None
     for _ in range(6):
         schema = gs.gen_schema(tape, cpp=True, feats=feats, max_defs=12)
@@ -37,7 +42,9 @@ def make_plan(tape, prop):
     plan["nproc"] = 4 + tape.draw(5)          # how many fresh-interpreter configurations are executed
     plan["pick"] = [tape.draw(1 << 10) for _ in range(12)]
     plan["unrelated"] = tape.draw(1 << 16)
-    plan["variant"] = tape.draw(4)      # 1: every independent input sits in its own directory next to its own defs.prophy
+    plan["variant"] = variant           # 4: self-contained isar inputs that define the same constant names with different
+                                        #    values and use textually identical size expressions over them
+                                        # 1: every independent input sits in its own directory next to its own defs.prophy
                                         # 3: self-contained inputs defining the same struct name, compiled with a patch file
                                         # 2: the common file is found only through the last of two -I directories
     return plan
@@ -74,6 +81,7 @@ class DetRun(object):
         self.trace = []
         self.incdirs = []
         self.patch = None
+        self.isar = False
 
     def count(self, k, n=1):
         self.stats[k] = self.stats.get(k, 0) + n
@@ -114,6 +122,24 @@ class DetRun(object):
                 self.patch = "p.patch"
                 self.faults["patch_applied_to_same_name_in_several_inputs"] = 1
                 return files, inputs
+            if self.plan.get("variant") == 4 and render.isar_expressible(self.plan["schema"]):
+                inputs = []
+                if len(tails) < 2:
+                    tails = [tails[0], tails[0]]
+                for k, t in enumerate(tails):
+                    name = "t%d/tail%d.xml" % (k, k)
+                    extra = [{"k": "const", "name": "DIRK", "expr": str(k + 2)},
+                             {"k": "const", "name": "DIRK2", "expr": "DIRK * 2"},
+                             {"k": "struct", "name": "XDir", "members": [
+                                 {"name": "pad", "type": "u8", "arr": "fixed", "n": 2 * (k + 2) + 1, "ntext": "DIRK * 2 + 1",
+                                  "opt": False},
+                                 {"name": "pad2", "type": "u16", "arr": "fixed", "n": 2 * (k + 2), "ntext": "DIRK2", "opt": False},
+                                 {"name": "tail", "type": "u32", "arr": None, "opt": False}]}]
+                    files[name] = render.isar_text(common + [t] + extra)
+                    inputs.append(name)
+                self.isar = True
+                self.faults["isar_inputs_same_names_other_values"] = 1
+                return files, inputs
             if self.plan.get("variant") == 2:
                 files["inc/common.prophy"] = render.prophy_text({"defs": common})
                 files["inc0/unrelated.prophy"] = "const UNRELATED = 1;\n"
@@ -140,7 +166,7 @@ class DetRun(object):
 
         def show(p):
             return p if absolute else os.path.relpath(p, cwd)
-        argv = [sys.executable, "-B", "-m", "prophyc"]
+        argv = [sys.executable, "-B", "-m", "prophyc"] + (["--isar"] if self.isar else [])
         for o in OUT_OPTS:
             argv += [o, show(outdir)]
         for d in self.incdirs:
@@ -242,7 +268,7 @@ class DetRun(object):
         fs.mkdir("/w/out")
         for n, t in files.items():
             fs.put("/w/src/" + n, t)
-        argv = []
+        argv = ["--isar"] if self.isar else []
         for o in OUT_OPTS:
             argv += [o, "/w/out"]
         for d in self.incdirs:
@@ -276,8 +302,14 @@ class DetRun(object):
                               "interpreter differ: %s" % [x for x in first if again.get(x) != first[x]])
         # each file alone, before and after the others, and after an unrelated schema defining the same names
         from sim.tape import Tape
-        unrelated = render.prophy_text(gs.gen_schema(Tape(self.plan["unrelated"]), cpp=True))
-        self.compile_in_process({"common.prophy": unrelated, "single.prophy": unrelated}, ["common.prophy"])
+        usch = gs.gen_schema(Tape(self.plan["unrelated"]), cpp=True)
+        if not self.isar:
+            unrelated = render.prophy_text(usch)
+            self.compile_in_process({"common.prophy": unrelated, "single.prophy": unrelated}, ["common.prophy"])
+        else:
+            unrelated = render.isar_text((usch["defs"] if render.isar_expressible(usch) else []) + [
+                {"k": "const", "name": "DIRK", "expr": "7"}, {"k": "const", "name": "DIRK2", "expr": "DIRK * 2"}])
+            self.compile_in_process({"common.xml": unrelated}, ["common.xml"])
         self.faults["stale_state"] = self.faults.get("stale_state", 0) + 1
         for i in inputs:
             alone = self.compile_in_process(files, [i])
